@@ -3,8 +3,11 @@
 package main
 
 import (
+	"bytes"
+	"encoding/hex"
 	"flag"
 
+	"free5gclib/CommonConsumerTestData/UDM/TestGenAuthData"
 	"free5gclib/milenage"
 	"verifharness/internal/ev"
 )
@@ -19,7 +22,7 @@ func main() {
 	r := ev.Rng(*seed, "milenage")
 	w := ev.Create(*out)
 	defer w.Close()
-	nbase := 3
+	nbase := 4
 	if *tier == "thorough" {
 		nbase = 96
 	}
@@ -41,12 +44,32 @@ func main() {
 		if b%4 == 1 {
 			sqnNet = []byte{0, 0, 0, 0, 0, 1}
 		}
+		if b == 1 {
+			// the test set the repository itself carries (TS 35.208 set 19; its SQN is what GetAuthSubscription installs): inputs from the
+			// table, and the table's own outputs are judged like a library result
+			t := TestGenAuthData.MilenageTestSet19
+			hx := func(x string) []byte { v, _ := hex.DecodeString(x); return v }
+			k, op, rnd, sqnNet, amf = hx(t.K), hx(t.OP), hx(t.RAND), hx(t.SQN), hx(t.AMF)
+			emit(ev.M{"ev": "F", "k": ev.Ints(k), "op": ev.Ints(op), "rand": ev.Ints(rnd), "sqn": ev.Ints(sqnNet), "amf": ev.Ints(amf),
+				"opc": ev.Ints(hx(t.OPC)), "macA": ev.Ints(hx(t.F1)), "macS": ev.Ints(hx(t.F1star)), "res": ev.Ints(hx(t.F2)), "ck": ev.Ints(hx(t.F3)),
+				"ik": ev.Ints(hx(t.F4)), "ak": ev.Ints(hx(t.F5)), "akStar": ev.Ints(hx(t.F5star)), "err": false, "table": true})
+		}
+		if b == 3 { // all-ones key material, all-zero challenge, network SQN zero, AMF all ones
+			for i := range k {
+				k[i], op[i], rnd[i] = 255, 255, 0
+			}
+			sqnNet, amf = make([]byte, 6), []byte{255, 255}
+		}
 		if b == 2 { // corner values: all-ones network SQN, AMF field all zero, all-zero key material
 			sqnNet, amf = []byte{255, 255, 255, 255, 255, 255}, []byte{0, 0}
 			k, op = make([]byte, 16), make([]byte, 16)
 		}
 
-		// f-functions
+		// f-functions; the caller's buffers must come back unchanged (a later call with the same slices sees the same inputs)
+		in0 := [][]byte{append([]byte{}, k...), append([]byte{}, op...), append([]byte{}, rnd...), append([]byte{}, sqnNet...), append([]byte{}, amf...)}
+		intact := func() bool {
+			return bytes.Equal(in0[0], k) && bytes.Equal(in0[1], op) && bytes.Equal(in0[2], rnd) && bytes.Equal(in0[3], sqnNet) && bytes.Equal(in0[4], amf)
+		}
 		var opc []byte
 		var err error
 		p := ev.Catch(func() { opc, err = milenage.GenerateOPC(k, op) })
@@ -55,24 +78,34 @@ func main() {
 		var e1, e2 error
 		p += ev.Catch(func() { e1 = milenage.F1(opc, k, rnd, sqnNet, amf, macA, macS) })
 		p += ev.Catch(func() { e2 = milenage.F2345(opc, k, rnd, res, ck, ik, ak, aks) })
-		emit(ev.M{"ev": "F", "k": ev.Ints(k), "op": ev.Ints(op), "rand": ev.Ints(rnd), "sqn": ev.Ints(sqnNet), "amf": ev.Ints(amf),
+		opcKept := append([]byte{}, opc...)
+		emit(ev.M{"ev": "F", "k": ev.Ints(in0[0]), "op": ev.Ints(in0[1]), "rand": ev.Ints(in0[2]), "sqn": ev.Ints(in0[3]), "amf": ev.Ints(in0[4]),
 			"opc": ev.Ints(opc), "macA": ev.Ints(macA), "macS": ev.Ints(macS), "res": ev.Ints(res), "ck": ev.Ints(ck),
-			"ik": ev.Ints(ik), "ak": ev.Ints(ak), "akStar": ev.Ints(aks), "err": err != nil || e1 != nil || e2 != nil || p != ""})
+			"ik": ev.Ints(ik), "ak": ev.Ints(ak), "akStar": ev.Ints(aks), "err": err != nil || e1 != nil || e2 != nil || p != "", "intact": intact()})
 		if len(opc) != 16 {
 			continue
 		}
+		copy(k, in0[0])
+		copy(op, in0[1])
+		copy(rnd, in0[2])
+		copy(sqnNet, in0[3])
+		copy(amf, in0[4])
 		// the same K and RAND under another operator constant, then the first one again: results may depend only on the arguments
 		op2 := ev.Corner16(r)
 		for _, o := range [][]byte{op2, op} {
+			o0 := append([]byte{}, o...)
 			var oc []byte
 			pp := ev.Catch(func() { oc, err = milenage.GenerateOPC(k, o) })
 			mA, mS := make([]byte, 8), make([]byte, 8)
 			r2, c2, i2, a2, s2 := make([]byte, 8), make([]byte, 16), make([]byte, 16), make([]byte, 6), make([]byte, 6)
 			pp += ev.Catch(func() { e1 = milenage.F1(oc, k, rnd, sqnNet, amf, mA, mS) })
 			pp += ev.Catch(func() { e2 = milenage.F2345(oc, k, rnd, r2, c2, i2, a2, s2) })
-			emit(ev.M{"ev": "F", "k": ev.Ints(k), "op": ev.Ints(o), "rand": ev.Ints(rnd), "sqn": ev.Ints(sqnNet), "amf": ev.Ints(amf),
+			// (an OPc returned earlier must not change under its holder either)
+			emit(ev.M{"ev": "F", "k": ev.Ints(in0[0]), "op": ev.Ints(o0), "rand": ev.Ints(in0[2]), "sqn": ev.Ints(in0[3]), "amf": ev.Ints(in0[4]),
 				"opc": ev.Ints(oc), "macA": ev.Ints(mA), "macS": ev.Ints(mS), "res": ev.Ints(r2), "ck": ev.Ints(c2),
-				"ik": ev.Ints(i2), "ak": ev.Ints(a2), "akStar": ev.Ints(s2), "err": err != nil || e1 != nil || e2 != nil || pp != ""})
+				"ik": ev.Ints(i2), "ak": ev.Ints(a2), "akStar": ev.Ints(s2), "err": err != nil || e1 != nil || e2 != nil || pp != "",
+				"intact": bytes.Equal(o, o0) && bytes.Equal(k, in0[0]) && bytes.Equal(rnd, in0[2]) && bytes.Equal(opc, opcKept)})
+			copy(o, o0)
 		}
 		// every subset of the five outputs of f2..f5* requested on its own (nil = not requested)
 		for mask := 1; mask < 32; mask++ {
